@@ -66,6 +66,13 @@ Theorem C06_create_time_exact : forall clk bt r st,
 Proof. exact create_time_exact. Qed.
 Print Assumptions C06_create_time_exact.
 
+(* psutil.Process(pid) reads the start time first; on a kernel record that never fails, so
+   every statement above about an accessor is a statement about the public call *)
+Theorem C06_front_transparent : forall (A : Type) r st (o : outcome A),
+  wf_kstat r = true -> fld 22 r = Some st -> is_dec st = true -> front (k_stat r) o = o.
+Proof. exact @front_transparent. Qed.
+Print Assumptions C06_front_transparent.
+
 Theorem C06_example_hostile_stat :
   wf_kstat ex_kstat = true /\ fld 3 ex_kstat = Some [116] /\ fld 4 ex_kstat = Some (bs "7")
   /\ spec_status documented_statuses 116 = Some (bs "tracing-stop")
